@@ -258,7 +258,7 @@ def fp_post(c):
 contract(F, 'ContiguousBlockAllocator._find_previous', props=('C16',),
          params={'self': 'self', 'addr': 'int'},
          ensures=[('nearest-non-empty-slot-below-addr-inside-the-partition,or-None-when-all-are-empty', fp_post)],
-         loops={0: Loop(inv=fp_inv, kinds={'i': 'int'})},
+         loops={0: Loop(early_exit=True, inv=fp_inv, kinds={'i': 'int'})},
          modifies=[],
          fields={'ContiguousBlockAllocator': {'_array': 'obj', 'addr_offset': 'int', 'top': 'int', 'size': 'int',
                                               'pos': 'int'}},
@@ -424,7 +424,7 @@ contract(F, 'ContiguousBlockAllocator._find_available', props=('C16',),
          params={'self': 'self', 'n': 'int'},
          requires=lambda c: c.n >= 1,
          ensures=[('exact-size-freed-block,else-a-larger-freed-one,else-the-top-area,else-no-space', fa_post)],
-         loops={0: Loop(inv=fa_inv, kinds={'size': 'int', 'set_': (lambda eng, n: V('obj', oid='havoc'))})},
+         loops={0: Loop(early_exit=True, inv=fa_inv, kinds={'size': 'int', 'set_': (lambda eng, n: V('obj', oid='havoc'))})},
          modifies=[],
          fields={'ContiguousBlockAllocator': {'_array': 'obj', 'addr_offset': 'int', 'top': 'int', 'size': 'int',
                                               'pos': 'int', '_freed': 'obj'}},
